@@ -14,7 +14,8 @@ EXPLANATION = (
     ' Added after the third round of seeded changes: R5 below the threshold the carrier is int64/uint64; R6 helpers rebuild arrays in the order they read them; element views are constructor-built (C17.R6, C20.R1); constructor state (C20.R2); route selection (C07.R8); object arrays are clamped by np.clip (C02.R6).'
     ' Added after the fourth round of seeded changes: from_bin / call / item assignment forward raw= (C01.R1); C20.R8 objects carry only the documented attributes and no function writes module-level containers (no caches / memos that go stale) (a memoised bin() goes stale after element stores).'
     ' Added after the fifth round of seeded changes: both range tests (C04.R1), bin()/hex() render sites and hex image (C11.R1/R2), C04.R7; C20.R8 also forbids mutable default arguments and private attributes hung on operands (x._cache, x.__dict__[...]).'
-    " Added after the sixth round of seeded changes: R2 (constructor side) on every normal path of __init__ a resize()/_init_size() call follows the installation of the fresh status record, so the indicator is recomputed also for like= / template objects without size arguments; the bitwise rules C13.R1-R3 are included ('the bitwise operators are exact at these widths').")
+    " Added after the sixth round of seeded changes: R2 (constructor side) on every normal path of __init__ a resize()/_init_size() call follows the installation of the fresh status record, so the indicator is recomputed also for like= / template objects without size arguments; the bitwise rules C13.R1-R3 are included ('the bitwise operators are exact at these widths')."
+    " Added after the seventh (short) round of seeded changes: the rounding dispatcher's pass-through for integer / object carriers (C05.R1-R3) is included: a rounding of object arrays through float64 loses the bits beyond 53.")
 ASSUMPTIONS = ["64-bit platform: fxpmath._n_word_max == 64 (probed by the library at import; the checker only verifies all switches use that symbol)"]
 TRUSTED = ["CPython ast", "lemma: arithmetic on object arrays of Python ints is exact"]
 
@@ -44,6 +45,7 @@ def run(ck):
     strings.hex_image(ck, "C11.R2")
     fresh.reset_only_by_user(ck, "C04.R7")
     carriers.indicator_after_record(ck, "C18.R2")
+    pipeline.rounding_table(ck, "C05.R1", "C05.R2", "C05.R3")   # Python-int (object) codes pass the rounding stage untouched: a detour through binary64 loses bits beyond 53
     ops.bit_primitives(ck, "C13.R1")                   # "the bitwise operators are exact at these widths"
     ops.bit_methods(ck, "C13.R2")
     ops.resign_helper(ck, "C13.R3")
